@@ -37,7 +37,7 @@ PROPS = {
     "C04": P("asan", "exploration", (40000, 30), (2500000, 480),
              "trees of every provenance (constructors, helpers, edits, parser, duplicate; depth up to 1000) are printed with Print, PrintUnformatted, PrintBuffered (prebuffer from {0,1,2,len-1,len,len+1,256,...}) and PrintPreallocated under both allocator configurations (default with realloc moving / shrinking in place; custom hooks without realloc); all byte streams must agree, parse back to an equal tree (numbers within 2^-52 relative, exact for integers below 1e15) and re-print byte-identically. Distinct by (tree hash, home allocator configuration); non-trivial when the tree is a container with a non-integer number or a string needing escapes/high bytes.",
              "hash of (printed tree, allocator configuration) for non-trivial trees",
-             [SIM_ALLOC, SIM_IN, SIM_OUT], probes=["text_crosses_256", "deep_tree_built"]),
+             [SIM_ALLOC, SIM_IN, SIM_OUT], probes=["text_crosses_256", "deep_tree_built", "wide_tree_built"]),
     "C05": P("asan", "exploration", (60000, 30), (2500000, 480),
              "trees with valid UTF-8 strings and possibly non-finite numbers are printed by all variants; an independent strict RFC 8259 reader must accept each text and decode it to the model value (non-finite -> null), the formatted text minus insignificant whitespace must equal the unformatted text, buffered/preallocated bytes must equal the plain ones, integer-valued numbers in int range must be plain decimal integers. Distinct by tree hash; non-trivial when the tree is a container printing to more than 20 bytes.",
              "hash of the printed tree for non-trivial trees",
@@ -72,13 +72,13 @@ PROPS = {
              "(target call kind, k, allocator side, outcome) tuples with k >= 2",
              [SIM_ALLOC, SIM_IN], probes=["failed_cleanly", "completed_despite_failure"], hang_s=120),
 
-    "C01": P("asan", "fault_enumeration", (400, 30), (300000, 480),
-             "the document store is filled with texts serialised from random model values (all token kinds, escapes, surrogates, 63-character numbers, BOM, whitespace), token soups, raw blocks and 998..100000-deep nestings; 0-2 sampled storage faults (bit flip, byte replace, lost/duplicated span, inserted structural byte, splice, zero byte, ...) are applied, then the short-write fault is ENUMERATED: every truncation point n in [0,|t|] (first 3000 bytes), each once as exact-length unterminated buffer and once zero-terminated, read through 1-3 of the four entry points (both require_null_terminated values, with/without return_parse_end, both allocator configurations). The bytes end flush against an inaccessible page and are read-only during the call. Oracles: no access outside the declared bytes, input unchanged, call returns, result NULL or a tree that passes a bounded structural walk, prints in both formats and deletes; ledger live set afterwards equals the one before. Distinct by (byte class before the cut, byte class after the cut, entry point, terminated?) for non-empty documents.",
+    "C01": P("asan", "fault_enumeration", (2400, 30), (300000, 480),
+             "the document store is filled with texts serialised from random model values (all token kinds, escapes, surrogates, 63-character numbers, BOM, whitespace), token soups, raw blocks and 998..100000-deep nestings; sampled storage faults (bit flip, byte replace, lost/duplicated span, inserted structural byte, splice, zero byte, grammar-biased edits such as bare \\u runs, ...) are applied; in a third of the runs the short-write fault is then ENUMERATED: every truncation point n in [0,|t|] (documents up to 4000 bytes), each once as exact-length unterminated buffer and once zero-terminated; the other runs only sample faults. Reads go through 1-3 of the four entry points (both require_null_terminated values, with/without return_parse_end, both allocator configurations). The bytes end flush against an inaccessible page and are read-only during the call. Oracles: no access outside the declared bytes, input unchanged, call returns, result NULL or a tree that passes a bounded structural walk, prints in both formats and deletes; ledger live set afterwards equals the one before. Distinct by (byte class before the cut, byte class after the cut, entry point, terminated?) for non-empty documents.",
              "(byte class left of the cut, byte class right of the cut, entry point, terminated, truncated?) tuples",
              [SIM_ALLOC, SIM_IN], probes=["deep_document", "long_number_token"], hang_s=120),
     "C03": P("asan", "exploration", (80000, 25), (8000000, 420),
-             "stored valid documents, token soups and deep nestings are hit by single-edit storage faults biased to each grammar rule the statement names (bracket swap/drop, separator drop/duplicate, quote drop, key replaced by number/literal/word, truncation, literal misspelling and case change, digits removed, dangling point/exponent, unknown escape, \\u with 0-3 or non-hex digits, lone/reversed surrogates, nesting 999..1100 and 1e5, trailing garbage); an independent dialect recogniser classifies the faulted bytes as outside / inside / unspecified (demanding only what every reading of the statement demands); OUTSIDE => all entry points return NULL and the ledger is unchanged by the call. Distinct by (fault kind, reason the recogniser rejects).",
-             "(fault kind, rejection reason) pairs classified 'outside'",
+             "stored valid documents, token soups and deep nestings are hit by single-edit storage faults biased to each grammar rule the statement names (bracket swap/drop, separator drop/duplicate, quote drop, key replaced by number/literal/word, truncation, literal misspelling and case change, digits removed, dangling point/exponent, unknown escape, \\u with 0-3 or non-hex digits, lone/reversed surrogates, nesting 999..1100 and 1e5, trailing garbage); an independent dialect recogniser classifies the faulted bytes as outside / inside / unspecified (demanding only what every reading of the statement demands); OUTSIDE => all entry points return NULL and the ledger is unchanged by the call. Distinct by (fault kind, reason the recogniser rejects, byte classes around the position where it stops, entry point, require_null_terminated).",
+             "(fault kind, rejection reason, byte classes at the rejection point, entry point, termination flag) tuples classified 'outside'",
              [SIM_ALLOC, SIM_IN], probes=["verdict_outside", "verdict_inside", "verdict_unspecified", "deep_document"], hang_s=120),
     "C10": P("asan", "exploration", (50000, 25), (5000000, 420),
              "histories of 2-6 document groups (intact, corrupted, truncated, with trailing bytes/whitespace/zero bytes, with and without terminator), each read 1-3 times through the four entry points with and without return_parse_end; the global error position carries over between calls. Oracles: on success buf <= end <= buf+n, the bytes before end parse alone to an equal tree, cJSON_GetErrorPtr()==NULL; with require_null_terminated success iff the non-required parse succeeds and the trailer is whitespace then a zero byte (trailers with bytes after a zero byte are left open); on failure NULL, return_parse_end == cJSON_GetErrorPtr() inside [buf, buf+n-1]. Distinct by (entry, flags, outcome, trailer class, last fault).",
